@@ -16,7 +16,7 @@ def run(c):
               "spellings, legacy .dawnconfig files and tags that are not canonical versions (look-alikes of tagged versions and "
               "short-form / build-metadata tags newer than every canonical one — not part of the universe). Fault injection, two "
               "scenarios per edit out of {dial, tag listing, fetch} x {fails once at the n-th call, down for the whole edit} x "
-              "{cold, warm module cache} — on every fifth edit (one scenario) in the quick tier, on every edit (two scenarios) in "
+              "{cold, warm module cache} — on every fourth edit (one scenario) in the quick tier, on every edit (two scenarios) in "
               "the thorough tier and in replays. Reqs.Upgrade / Reqs.Previous are judged on every tagged version of every case. "
               "Non-trivial = at least one operation of the sequence succeeds."),
         judge_note="tidy: build list unchanged; get as add/upgrade/no-op: new build list has the project at >= the resolved "
